@@ -23,7 +23,13 @@ LeafProduct(leaves, n) ==
   IN FoldLeft(LAMBDA acc, w : LET x == FFromWords(w) IN FMul(FMul(FMul(acc, x), x), c), FOne, leaves)
 vars == <<l, bad>>
 Judge(e) ==
-  IF e.ev = "callsum" THEN
+  IF e.ev = "keyleaves" THEN
+    \* the tree of a generated key: n leaves, each in [sigma_min, sigma_max], multiplying to (sigma^2/q)^n
+    LET nl == Len(e.leaves)
+        inrange == \A k \in 1..nl : LeqWords(SigmaMinBitsOf(e.n), e.leaves[k]) /\ LeqWords(e.leaves[k], SigmaMaxBits)
+        prod == nl = e.n /\ FClose(LeafProduct(e.leaves, e.n), FOne, 30)
+    IN [ok |-> nl = e.n /\ inrange /\ prod, branch |-> "keyleaves-n" \o ToString(e.n), detail |-> <<nl, inrange, prod>>]
+  ELSE IF e.ev = "callsum" THEN
     \* Algorithm 11 (ffSampling) recurses into the RIGHT subtree first; at a leaf it draws two samples with that leaf's width.
     \* So the widths of the 2n accepted samples of one pass are the leaves in reversed pre-order, each twice.
     LET nl == Len(e.leaves)
